@@ -13,6 +13,7 @@ import (
 	"os"
 	"path/filepath"
 	"strings"
+	"testing/synctest"
 	"time"
 
 	"github.com/rs/zerolog"
@@ -769,6 +770,10 @@ func (w *world) doRun(run *GRun, extra extraFault) *runObs {
 		a.Close()
 		b.Close()
 		<-done
+	} else {
+		// the connection stays open for the next request: let the simulated agent finish what it is doing (it
+		// records the reply it has just delivered after the run may already have gone on)
+		synctest.Wait()
 	}
 	ob.caCalls = ca.calls
 	for _, ev := range w.ref.EventsSince(evStart) {
